@@ -199,7 +199,7 @@ def evaluate(case, obs):
                                                                                       "generation": a.body["generation"]})
             if end:
                 later_sub = any(e["t"] <= s["t"] <= end[0]["t"] for s in subs_ev) or \
-                    any(a.t_written - 1e-9 <= t <= end[0]["t"] + 1e-9 for t in c06.metadata_change_times(c, tag))
+                    any(a.t_written - 1e-9 <= t <= end[0]["t"] + 1e-9 for t in c06.metadata_change_times(c, tag, obs.events))
                 stopping = any(x["kind"] == "stop_call" and x["t"] <= end[0]["t"] for x in evs)
                 if sorted(end[0]["after"]) != sent and not later_sub and not stopping:
                     out.fail("adopts_sent", "assignment_after_callback_differs", {"member": tag, "sent": sent, "assignment()": end[0]["after"]})
